@@ -100,16 +100,50 @@ theorem op_cuts {d es tail} (h : Rep d es tail) (op : Op) (initSize : Nat)
 
 /-! ## a whole history from an open store -/
 
+theorem need_append (a b : List Op) (seen : List Key) :
+    need seen (a ++ b) = need seen a + need (a.foldl opSeen seen) b := by
+  induction a generalizing seen with
+  | nil => simp [need]
+  | cons op a ih => simp [need, ih, Nat.add_assoc]
+
+theorem runFrom_append (initSize : Nat) (a b : List Op) (d : MmapedDict) :
+    runFrom initSize d (a ++ b) = (do
+      let (d1, t1) ← runFrom initSize d a
+      let (d2, t2) ← runFrom initSize d1 b
+      .ok (d2, t1 ++ t2)) := by
+  induction a generalizing d with
+  | nil =>
+    simp only [List.nil_append, runFrom, bind, Except.bind, List.nil_append]
+    cases runFrom initSize d b <;> rfl
+  | cons op a ih =>
+    simp only [List.cons_append, runFrom, bind, Except.bind, ih]
+    cases step initSize d op with
+    | error e => rfl
+    | ok r1 =>
+      obtain ⟨d1, t1⟩ := r1
+      simp only
+      cases runFrom initSize d1 a with
+      | error e => rfl
+      | ok r2 =>
+        obtain ⟨d2, t2⟩ := r2
+        simp only
+        cases runFrom initSize d2 b with
+        | error e => rfl
+        | ok r3 => simp [List.append_assoc]
+
 theorem cuts_from (initSize : Nat) : ∀ (ops : List Op) {d es tail}, Rep d es tail →
     d.used + need (keys es) ops < 2147483648 →
-    ∃ d' tr, runFrom initSize d ops = .ok (d', tr) ∧ applyEffects (some d.file) tr = some d'.file ∧
+    ∃ d' tr es' tail', runFrom initSize d ops = .ok (d', tr) ∧ Rep d' es' tail' ∧
+      triples es' = Spec.MmapDict.run (triples es) (ops.map toSpec) ∧
+      keys es' = ops.foldl opSeen (keys es) ∧ d'.used = d.used + need (keys es) ops ∧
+      applyEffects (some d.file) tr = some d'.file ∧
       ∀ s ∈ states (some d.file) tr, ∃ file esx, s = some file ∧ CutRep file esx ∧
         PrefixFrom (triples es) (ops.map toSpec) (triples esx) := by
   intro ops
   induction ops with
   | nil =>
     intro d es tail h _
-    refine ⟨d, [], rfl, rfl, ?_⟩
+    refine ⟨d, [], es, tail, rfl, h, rfl, rfl, by simp [need], rfl, ?_⟩
     intro s hs
     simp only [states, List.mem_singleton] at hs
     exact ⟨d.file, es, hs, ⟨_, _, h.file, h.nodup⟩, prefixFrom_here _ _⟩
@@ -117,8 +151,9 @@ theorem cuts_from (initSize : Nat) : ∀ (ops : List Op) {d es tail}, Rep d es t
     intro d es tail h hf
     simp only [need] at hf
     obtain ⟨d1, tr1, es1, tail1, hs1, hr1, ht1, hu1, hk1, hfin1, hcuts1⟩ := op_cuts h op initSize (by omega)
-    obtain ⟨d2, tr2, hs2, hfin2, hcuts2⟩ := ih hr1 (by rw [hk1, hu1]; omega)
-    refine ⟨d2, tr1 ++ tr2, by simp [runFrom, hs1, hs2, bind, Except.bind],
+    obtain ⟨d2, tr2, es2, tail2, hs2, hr2, ht2, hk2, hu2, hfin2, hcuts2⟩ := ih hr1 (by rw [hk1, hu1]; omega)
+    refine ⟨d2, tr1 ++ tr2, es2, tail2, by simp [runFrom, hs1, hs2, bind, Except.bind], hr2,
+      by rw [ht2, ht1]; simp [Spec.MmapDict.run], by rw [hk2, hk1]; simp, by rw [hu2, hu1, hk1]; simp [need]; omega,
       by rw [applyEffects_append, hfin1, hfin2], ?_⟩
     intro s hs
     rcases mem_states_append.mp hs with hs | hs
